@@ -7,7 +7,7 @@
    handshake headers (None = absent).  [app] = (compression enabled?, select_subprotocol policy). *)
 From Coq Require Import List NArith String.
 Import ListNotations.
-From TV Require Import C43.Model C17.Model C17.Run C17.Proofs C17.Proofs2.
+From TV Require Import C43.Model C17.Model C17.Run C17.Proofs C17.Proofs2 C17.Proofs3 C17.Proofs4 C17.Desc Gen.C17_src Gen.C17_equiv.
 Local Open Scope N_scope.
 
 (* ---- server: status = 101 exactly when ... ------------------------------------------- *)
@@ -118,17 +118,27 @@ Proof. exact connect_resolves_only_valid. Qed.
 Print Assumptions C17_connect_future_resolves_only_valid.
 
 (* ---- the model passes the checker that is applied to the implementation ------------------ *)
+(* Purely syntactic input conditions: the Sec-WebSocket-Protocol / -Extensions values are header
+   text as the HTTP parser delivers it (wire_opt: every character in _VALID_HEADER_CHARS) and the
+   extensions value contains no '*' (nostar_opt: no RFC 2231 parameter).  Under them the two
+   escape hatches of the model are impossible ... *)
+Theorem C17_wire_text_never_refused_nor_out_of_model : forall a r,
+  wire_opt (r_protocol r) = true -> wire_opt (r_extensions r) = true -> nostar_opt (r_extensions r) = true ->
+  negotiate a r <> NegValueError /\ negotiate a r <> NegOut.
+Proof. exact negotiate_wire. Qed.
+Print Assumptions C17_wire_text_never_refused_nor_out_of_model.
+
+(* ... and check_case accepts the model's own observable on every such input. *)
 Theorem C17_model_satisfies_checker_server : forall b a r,
-  handshake sha1 (fun _ => b) a r <> ROut ->
-  negotiate a r <> NegValueError ->       (* set_header refusing a value: impossible for header text from the wire *)
+  wire_opt (r_protocol r) = true -> wire_opt (r_extensions r) = true -> nostar_opt (r_extensions r) = true ->
   check_case (CaseServer b a r) (run_case (CaseServer b a r)) = true.
-Proof. exact model_satisfies_checker_server. Qed.
+Proof. exact model_satisfies_checker_server_wire. Qed.
 Print Assumptions C17_model_satisfies_checker_server.
 
 Theorem C17_model_satisfies_checker_client : forall seed compress subs status s,
-  process_server_headers sha1 (client_of seed compress subs) s <> COut ->
+  wire_opt (s_extensions s) = true -> nostar_opt (s_extensions s) = true ->
   check_case (CaseClient seed compress subs status s) (run_case (CaseClient seed compress subs status s)) = true.
-Proof. exact model_satisfies_checker_client. Qed.
+Proof. exact model_satisfies_checker_client_wire. Qed.
 Print Assumptions C17_model_satisfies_checker_client.
 
 (* the out-of-model outcome (RFC 2231 extended parameter in the negotiated offer) cannot occur
@@ -142,3 +152,55 @@ Theorem C17_no_out_of_model_without_compression_client : forall h seed subs s,
   process_server_headers h (client_of seed false subs) s <> COut.
 Proof. exact client_no_out_without_compression. Qed.
 Print Assumptions C17_no_out_of_model_without_compression_client.
+
+(* ---- Tornado client against Tornado server (the two halves composed) --------------------- *)
+(* The request a Tornado client sends (any key, subprotocol list, compression setting, non-empty Host)
+   passes every header/version/origin test of the server: only the application's own
+   select_subprotocol can stand between it and a 101. *)
+Theorem C17_client_request_is_accepted : forall h brk a c host,
+  host <> [] -> c_key c <> [] ->
+  (is_101 (handshake h brk a (client_request c host)) <->
+   exists sub ext, negotiate a (client_request c host) = NegOk sub ext).
+Proof. exact client_request_is_accepted. Qed.
+Print Assumptions C17_client_request_is_accepted.
+
+(* Whenever the server answers such a request with 101, the client accepts that response, both
+   sides hold the same subprotocol, and permessage-deflate is on for both or for neither
+   (and only if both enabled compression). *)
+Theorem C17_client_server_interop : forall h brk a c host acc sub ext,
+  handshake h brk a (client_request c host) = R101 acc sub ext ->
+  client_handshake h c (response_headers acc sub ext)
+    = CAccept sub (match ext with Some _ => true | None => false end)
+  /\ (forall e, ext = Some e -> c_compress c = true /\ a_compress a = true /\ e = K_deflate).
+Proof. exact interop. Qed.
+Print Assumptions C17_client_server_interop.
+
+Theorem C17_model_satisfies_checker_loop : forall seed compress subs host a,
+  check_case (CaseLoop seed compress subs host a) (run_case (CaseLoop seed compress subs host a)) = true.
+Proof. exact model_satisfies_checker_loop_full. Qed.
+Print Assumptions C17_model_satisfies_checker_loop.
+
+(* ---- tie to the source text ---------------------------------------------------------------- *)
+(* src_desc is regenerated from tornado/websocket.py on every run by translators/c17_src.py, which
+   refuses (broken obligation) unless get / check_origin / get_websocket_protocol /
+   _handle_websocket_headers / compute_accept_value / accept_connection / _accept_connection (up to
+   finish) / _parse_extensions_header / _process_server_headers / the allowed_keys test / the client's
+   offered-subprotocol test still have the statement structure the model was written from.  The
+   constants it reads are the model's, so the tests instantiated with the source's constants ARE the
+   model's tests. *)
+Theorem C17_source_constants_are_the_models : src_desc = expected_desc.
+Proof. exact src_desc_is_expected. Qed.
+Print Assumptions C17_source_constants_are_the_models.
+
+Theorem C17_source_tests_are_the_models :
+  (forall r, upgrade_ok_d src_desc r = upgrade_ok r)
+  /\ (forall r, connection_ok_d src_desc r = connection_ok r)
+  /\ (forall r, version_ok_d src_desc r = version_ok r)
+  /\ (forall r, fields_ok_d src_desc r = fields_ok r)
+  /\ (forall brk o host, check_origin_d src_desc brk o host = check_origin brk o host)
+  /\ (forall h key, accept_value_d src_desc h key = accept_value h key)
+  /\ (forall k, allowed_key_d src_desc k = mem_str k allowed_keys)
+  /\ d_exits src_desc = model_exits
+  /\ d_status src_desc = 101.
+Proof. exact src_tests_are_the_models. Qed.
+Print Assumptions C17_source_tests_are_the_models.
